@@ -7,7 +7,8 @@ use crate::util::{Opts, Rng};
 use std::io::Write;
 use std::process::{Command, Stdio};
 
-pub const REG_PREFIXES: [&[(u16, u8)]; 12] = [
+/// pseudo-addresses: 65536 = let 64*v clocks pass, 65537 = let 4*v clocks pass (MemoryAreas::run_clock_cycles, as in c10)
+pub const REG_PREFIXES: [&[(u32, u8)]; 21] = [
   &[],
   &[(0x2000, 0x00)],
   &[(0x2000, 0x1f)],
@@ -20,6 +21,20 @@ pub const REG_PREFIXES: [&[(u16, u8)]; 12] = [
   &[(0x0000, 0x0a), (0x4000, 0x03), (0x6000, 0x01)],
   &[(0x2000, 0x20), (0x4000, 0x02)],
   &[(0x3fff, 0x55), (0x5fff, 0xfe), (0x7fff, 0xff)],
+  // device states that only exist after time has passed: the timer enabled, TIMA at its last value, the divider bit
+  // selected by TAC high (a DIV or TAC write is then an edge for the timer); the LCD on and inside a line; an OAM DMA
+  // under way; TIMA one tick before its overflow
+  &[(0xff07, 0x05), (0xff05, 0xff), (65537, 2)],
+  &[(0xff07, 0x06), (0xff05, 0xff), (65537, 8)],
+  &[(0xff07, 0x07), (0xff05, 0xff), (65537, 32)],
+  &[(0xff07, 0x04), (0xff05, 0xff), (65537, 128)],
+  &[(0xff40, 0x91), (0xff41, 0x78), (0xff45, 0x01), (65536, 9), (65537, 30)],
+  &[(0x2000, 0x03), (0xff46, 0x40), (65537, 10)],
+  &[(0xff06, 0xff), (0xff07, 0x05), (0xff05, 0xff), (65537, 3), (0xffff, 0x1f)],
+  // registers that only a Color Game Boy has (work-RAM bank, VRAM bank, speed switch, infrared, object priority): on this
+  // machine they are unassigned I/O and must not move any window
+  &[(0xff70, 0x02)],
+  &[(0xff4f, 0x01), (0xff70, 0x07), (0xff4d, 0x01), (0xff56, 0xff), (0xff6c, 0x01), (0xff51, 0xff), (0xff55, 0x7f)],
 ];
 
 pub fn addr_set(all: bool, seed: u64) -> Vec<u16> {
@@ -74,7 +89,13 @@ pub fn child(opts: &Opts) {
     { let mut o = out.lock(); writeln!(o, "BEGIN {}", i).unwrap(); o.flush().unwrap(); }
     let mut mem = mk_mem(t, r, m, &[]);
     let p = &mut mem as *mut MemoryAreas;
-    for (a, v) in REG_PREFIXES[ri].iter() { memory_write_byte(p, *a, *v); }
+    for (a, v) in REG_PREFIXES[ri].iter() {
+      match *a {
+        65536 => mem.run_clock_cycles(crate::timing::ClockCycles::new(64 * *v as usize)),
+        65537 => mem.run_clock_cycles(crate::timing::ClockCycles::new(4 * *v as usize)),
+        _ => memory_write_byte(p, *a as u16, *v),
+      }
+    }
     let h = sweep(p, kind, &addrs[..upto]);
     let (ds, _) = crate::s_c10::image_digests(p);
     let mut img = FNV0;
